@@ -91,7 +91,14 @@ class SsbScriptSsbCompiler:
         parser.addParseListener(compiler_listener)
 
         # Start Parsing
-        parser.start()
+        try:
+            parser.start()
+        except Exception:
+            # The compiler listener also runs while the parser recovers from a syntax error and may trip
+            # over the incomplete parts of the tree. The syntax error is what has to be reported then.
+            if len(error_listener.syntax_errors) > 0:
+                raise ParseError(error_listener.syntax_errors[0])
+            raise
 
         # Look for errors
         if len(error_listener.syntax_errors) > 0:
